@@ -314,3 +314,8 @@ def run(chk, repo):
     from rules.shared import kwname
     chk.clauses.append('C20.kw (shared R-THREAD) parameters handed on as keyword arguments keep their name: no `a=b` between two parameters of one function')
     kwname(chk, repo, 'C20.kw', ['cli.decoy_fasta'], floor=0)
+    from rules.shared import options_live
+    chk.clauses.append('C20.h (shared R-OPTION) every option decoyFasta itself defines is read by its code: none silently falls back to a library default')
+    options_live(chk, repo, 'C20.h', 'cli.decoy_fasta:add_subparser_decoy_fasta', 'cli.decoy_fasta:decoy_fasta', ('cli.decoy_fasta', 'cli.common'), floor=7)
+
+
